@@ -623,6 +623,113 @@ func c15Defer(c *Ctx, fn *ssa.Function, ct *ssa.Call, src ssa.Value, tmpFile ssa
 			}
 		}
 	}
+	// the same condition kept in a success flag instead of a named result: `done := false; defer func() { if !done { remove } }();
+	// ...; done = true; return nil` - the flag is set on the way to every successful return and on no way to a failing one
+	if !okCond {
+		for _, b := range closure.Blocks {
+			for _, in := range b.Instrs {
+				u, ok := in.(*ssa.UnOp)
+				if !ok || u.Op != token.MUL {
+					continue
+				}
+				al := allocOf(u.X)
+				if al == nil || al.Parent() != fn || al.Type().Underlying().(*types.Pointer).Elem().String() != "bool" || u.Referrers() == nil {
+					continue
+				}
+				// the test `!flag`: go/ssa either keeps the negation or swaps the branches of `if flag`
+				type flagTest struct {
+					iff     *ssa.If
+					negated bool
+				}
+				var tests []flagTest
+				for _, r := range *u.Referrers() {
+					switch x := r.(type) {
+					case *ssa.If:
+						tests = append(tests, flagTest{x, false})
+					case *ssa.UnOp:
+						if x.Op == token.NOT && x.Referrers() != nil {
+							for _, rr := range *x.Referrers() {
+								if iff, isIf := rr.(*ssa.If); isIf {
+									tests = append(tests, flagTest{iff, true})
+								}
+							}
+						}
+					}
+				}
+				for _, ft := range tests {
+					{
+						iff := ft.iff
+						rb := remove.instr.Block()
+						thn, els := iff.Block().Succs[0], iff.Block().Succs[1]
+						if !ft.negated {
+							thn, els = els, thn // the removal sits on the flag-is-false edge
+						}
+						guarded := (thn == rb || thn.Dominates(rb)) && !reachable(els, rb)
+						always := true
+						for _, ret := range returnsOf(closure) {
+							if !(iff.Block() == ret.Block() || iff.Block().Dominates(ret.Block())) {
+								always = false
+							}
+						}
+						if !guarded || !always {
+							continue
+						}
+						// the flag in fn: only constants are stored; `true` only where nothing but success returns follow;
+						// every success return after the defer was registered has passed a `true` store
+						okFlag, whyFlag := true, ""
+						var trues []*ssa.Store
+						for _, st := range storesTo(al) {
+							k, isC := st.Val.(*ssa.Const)
+							if !isC || st.Parent() != fn {
+								okFlag, whyFlag = false, "the flag is assigned "+describe(st.Val)
+								continue
+							}
+							if k.Value != nil && k.Value.String() == "true" {
+								trues = append(trues, st)
+							}
+						}
+						var deferAt ssa.Instruction
+						for _, b2 := range fn.Blocks {
+							for _, in2 := range b2.Instrs {
+								if d, isD := in2.(*ssa.Defer); isD {
+									if mc, isMC := d.Call.Value.(*ssa.MakeClosure); isMC && mc.Fn == ssa.Value(closure) {
+										deferAt = d
+									}
+								}
+							}
+						}
+						for _, st := range trues {
+							for _, ret := range returnsOf(fn) {
+								if reachableAfter(st, ret) && !returnsNilError(ret) {
+									okFlag, whyFlag = false, "a failing return is reachable after the flag was set"
+								}
+							}
+						}
+						for _, ret := range returnsOf(fn) {
+							if deferAt == nil || !instrDominates(deferAt, ret) || !returnsNilError(ret) {
+								continue
+							}
+							dom := false
+							for _, st := range trues {
+								if instrDominates(st, ret) {
+									dom = true
+								}
+							}
+							if !dom {
+								okFlag, whyFlag = false, "a successful return does not pass the store that sets the flag"
+							}
+						}
+						if okFlag && len(trues) > 0 && deferAt != nil {
+							okCond = true
+							why = fmt.Sprintf("the removal is guarded by !%s, a flag set (to true) on the way to every successful return and on no way to a failing one", al.Comment)
+						} else if whyFlag != "" {
+							why = whyFlag
+						}
+					}
+				}
+			}
+		}
+	}
 	c.check(okCond, "C15.4", name+":cleanup-condition", L.pos(remove.instr.Pos()), name+": temporary file is removed exactly when the function fails", why)
 
 	// (iii) the cleanup never replaces an error that is already set: a store into the named result inside the deferred closure
